@@ -69,6 +69,7 @@ func runC06(c *Ctx) {
 	// Z24: who may call the bare copy workers
 	c.c06WorkersOnlyBehindTheGuards()
 	c.c06IntoRuleAppliedOnce()
+	c.c06NothingCreatedForACopyThatWillBeRefused()
 	c.c06CancellationIsReported()
 	if os.Getenv("GUCHECK_EXPLORE") == "forwarders" {
 		c.exploreForwarders()
@@ -2043,4 +2044,115 @@ func (c *Ctx) c06IntoRuleAppliedOnce() {
 				"the child is handed to the guarded copy with a destination that already ends with the child's name: the guarded copy appends the base name of its source to a destination that is an existing directory (the cp -r 'into' rule), so wherever dest/child exists as a directory — a second copy of a tree over the first — the content lands in dest/child/child and dest/child keeps its stale files; the resulting tree is not that of the reference model")
 		})
 	}
+}
+
+// c06NothingCreatedForACopyThatWillBeRefused (Z27): "a copy never changes its source, also when source and destination
+// overlap". The variants that prepare the destination themselves (CopyToDirectory creates the directory it copies into)
+// and then hand source and destination to the copy: what they create from the destination parameter is created only after
+// the overlap of the two was looked at — the copy refuses a directory copied into itself, and a refusal that comes after
+// the directory was made leaves that directory inside the source (the defect F91 of the pinned sources, repaired).
+func (c *Ctx) c06NothingCreatedForACopyThatWillBeRefused() {
+	c.rule("Z27", "a variant of Copy that creates something at its destination parameter before it hands source and destination to the copy does so only after the overlap of the two was examined (isWithinDirectory): a copy that is refused leaves nothing inside its source", 1)
+	mutating := map[string]bool{"MkDir": true, "MkDirAll": true, "CreateFile": true, "WriteFile": true, "Touch": true}
+	for _, f := range c.srcFuncs(fsPkgRel) {
+		if f.Blocks == nil || f.Parent() != nil || !strings.HasPrefix(outermost(f).Name(), "Copy") {
+			continue
+		}
+		si := paramIndexByName(f, "src")
+		di := -1
+		for i, p := range f.Params {
+			if p.Type().String() == "string" && strings.HasPrefix(p.Name(), "dest") {
+				di = i
+			}
+		}
+		if si < 0 || di < 0 {
+			continue
+		}
+		derives := func(v ssa.Value, p *ssa.Parameter) bool {
+			for _, l := range sources(v, deriveOpts{through: func(string) bool { return true }}) {
+				if resolveValue(l) == ssa.Value(p) {
+					return true
+				}
+			}
+			return false
+		}
+		var copyCall *ssa.Call
+		var creates, examined []*ssa.Call
+		allInstrs(f, func(in ssa.Instruction) {
+			cl, ok := in.(*ssa.Call)
+			if !ok {
+				return
+			}
+			if nm, args, isFs := fsMethodCall(cl); isFs {
+				if mutating[nm] && len(args) > 0 && derives(args[0], f.Params[di]) {
+					creates = append(creates, cl)
+				}
+				if strings.HasPrefix(nm, "Copy") {
+					hasS, hasD := false, false
+					for _, a := range args {
+						hasS = hasS || derives(a, f.Params[si])
+						hasD = hasD || derives(a, f.Params[di])
+					}
+					if hasS && hasD {
+						copyCall = cl
+					}
+				}
+				return
+			}
+			if g := staticCallee(&cl.Call); g != nil {
+				if g.Name() == "isWithinDirectory" {
+					examined = append(examined, cl)
+				}
+				if strings.HasPrefix(g.Name(), "Copy") && g != f {
+					hasS, hasD := false, false
+					for _, a := range cl.Call.Args {
+						hasS = hasS || derives(a, f.Params[si])
+						hasD = hasD || derives(a, f.Params[di])
+					}
+					if hasS && hasD {
+						copyCall = cl
+					}
+				}
+			}
+		})
+		if copyCall == nil || len(creates) == 0 {
+			continue
+		}
+		c.FuncsSeen[fname(f)] = true
+		bad := ""
+		for _, m := range creates {
+			if !dominates(m, copyCall) {
+				continue
+			}
+			okM := false
+			for _, e := range examined {
+				if dominates(e, m) || onBoolSideOfCall(e, m) {
+					okM = true
+				}
+			}
+			if !okM {
+				bad = c.ipos(m)
+			}
+		}
+		c.check(bad == "", "Z27", fname(f)+"/nothing-created-before-the-overlap-is-examined", c.pos(f.Pos()), "what is created at the destination before the copy follows the examination of the overlap",
+			"the call at "+bad+" creates the destination before anything looked at whether it lies inside the source: the copy that follows refuses to copy a directory into itself, but the directory made for it stays — CopyToDirectory(a, a/sub) answers 'invalid' and leaves a/sub inside its source")
+	}
+}
+
+// onBoolSideOfCall: the call e is part of a condition (short-circuit chains included) one side of which leads to m: e was
+// evaluated on some path before m and no path to m avoids the condition's block.
+func onBoolSideOfCall(e *ssa.Call, m ssa.Instruction) bool {
+	// the head of the short-circuit chain e belongs to dominates m
+	b := e.Block()
+	for len(b.Preds) == 1 {
+		p := b.Preds[0]
+		if _, isIf := p.Instrs[len(p.Instrs)-1].(*ssa.If); !isIf {
+			break
+		}
+		if p.Dominates(m.Block()) {
+			return true
+		}
+		b = p
+	}
+	return false
 }
